@@ -1812,7 +1812,11 @@ func vfC17ScenPoolRefilled(size int) func() vfC17ScenResult {
 func vfC17ScenPoolReplenished(kind string, size int) func() vfC17ScenResult {
 	return func() vfC17ScenResult {
 		res := vfC17ScenResult{Name: fmt.Sprintf("pool-replenished-%s-size-%d", kind, size)}
-		r, err := vfC17NewRun(1, 2, size, nil)
+		var mod func(*ClusterConfig)
+		if kind == "too-many-timeouts" {
+			mod = func(c *ClusterConfig) { c.Timeout = 250 * time.Millisecond }
+		}
+		r, err := vfC17NewRun(1, 2, size, mod)
 		if err != nil {
 			res.Err = err.Error()
 			return res
@@ -1894,6 +1898,43 @@ func vfC17ScenPoolReplenished(kind string, size int) func() vfC17ScenResult {
 			n2.mu.Lock()
 			n2.Down = false
 			n2.mu.Unlock()
+		case "too-many-timeouts":
+			// the driver itself gives the connection up: more than TimeoutLimit of its requests timed out (the node stops
+			// answering OPTIONS on that one connection). TimeoutLimit is a package variable: this kind runs in a test
+			// process of its own (TestVfC17ScenariosIsolated).
+			var dc *Conn
+			for _, p := range r.poolsOf(ip2) {
+				p.mu.RLock()
+				for _, c := range p.conns {
+					if vfC17MemOf(c.conn) == v1.mem {
+						dc = c
+					}
+				}
+				p.mu.RUnlock()
+			}
+			if dc == nil {
+				res.Err = "the driver's end of the victim connection was not found in the pool"
+				s.Close()
+				return res
+			}
+			n2 := r.nodes[1]
+			n2.mu.Lock()
+			n2.Handler = func(nc *vfNodeConn, f *vfFrame, q *vfRequest) bool { return nc == v1.nc && f.Op == vfOpOptions }
+			n2.mu.Unlock()
+			atomic.StoreInt64(&TimeoutLimit, 1)
+			for i := 0; i < 2; i++ {
+				if _, xerr := dc.exec(context.Background(), &writeOptionsFrame{}, nil); xerr == nil {
+					res.Err = "a request the node does not answer returned without error"
+				}
+			}
+			atomic.StoreInt64(&TimeoutLimit, 0)
+			if res.Err != "" || !vfC17Poll(vfC17DeadlineD(), dc.Closed) {
+				if res.Err == "" {
+					res.Err = "the connection was not closed after TimeoutLimit was exceeded"
+				}
+				s.Close()
+				return res
+			}
 		case "loss-during-fill":
 			// the refill's connect is parked in the dialer; a second connection is lost meanwhile
 			parked := make(chan struct{})
@@ -1984,6 +2025,39 @@ func vfC17ScenPoolReplenished(kind string, size int) func() vfC17ScenResult {
 		}
 		return res
 	}
+}
+
+// TestVfC17ScenariosIsolated: scenarios that change package-level settings of the driver, one after the other, in a
+// process of their own.
+func TestVfC17ScenariosIsolated(t *testing.T) {
+	outPath := os.Getenv("VF_TRACES")
+	if outPath == "" {
+		t.Skip("VF_TRACES not set")
+	}
+	out, err := vfCreateNDJSON(outPath)
+	if err != nil {
+		t.Fatal(err)
+	}
+	defer out.Close()
+	for _, f := range []func() vfC17ScenResult{vfC17ScenPoolReplenished("too-many-timeouts", 1), vfC17ScenPoolReplenished("too-many-timeouts", 2)} {
+		var res vfC17ScenResult
+		for attempt := 0; attempt < 3; attempt++ {
+			t0 := time.Now()
+			res = f()
+			res.Secs = time.Since(t0).Seconds()
+			if res.Unsure != "" {
+				res.Viol, res.What = "", ""
+				if res.Err == "" {
+					res.Err = "unsettled: " + res.Unsure
+				}
+			}
+			if res.Err == "" || res.Viol != "" {
+				break
+			}
+		}
+		out.Write(res)
+	}
+	fmt.Printf("VFSUMMARY {}\n")
 }
 
 func TestVfC17Scenarios(t *testing.T) {
